@@ -76,9 +76,10 @@ CLAIMED = {
                      'substitution of the inner shape for every leaf; result well-formed; leaves multiply), C08_compose_leaf / _leaf_right, '
                      'C08_transform_leaf_refines / C08_transform_leaf_is_compose / C08_transform_id (the left-to-right loop of Transform with its stack '
                      'of pending counts: replacing every leaf by the treespec of b builds the shape compose builds; with the leaf treespec it is the '
-                     'identity; Lemmas/EncTransform.lean); '
+                     'identity; Lemmas/EncTransform.lean), C08_rebuild_from_children / C08_rebuild_ordereddict / C08_rebuild_equal (treespec_tuple / list / '
+                     'deque / ordereddict over children() rebuild the root: same node array, compatible namespace; Lemmas/EncConstruct.lean); '
                      'C08_normIndex_none/some (Python index semantics), C08_child_index_error, C08_entry_of_entries, C08_one_level, '
-                     'C08_compose_counts, C08_compose_rejects, C08_transform_none, C08_make_leaf_none, C08_repr_affixes. treespec_* constructors and '
+                     'C08_compose_counts, C08_compose_rejects, C08_transform_none, C08_make_leaf_none, C08_repr_affixes. the sorting constructors (treespec_dict / defaultdict), the class constructors and '
                      'transform with node functions: correspondence (5000+ lines per run) + oracle.' + PARTIAL,
                 technique='Lean 4 proof + correspondence', ref='6 C08'),
     'C09': dict(text='Proved for all well-formed shapes whose payloads fit their kinds, any nesting and any dict key orders: C09_broadcast_refines - the merge walk '
